@@ -30,6 +30,7 @@ from .execution import (
     record_cancel,
     record_failure,
     record_success,
+    settle_if_unsettled,
 )
 from .retry import Retry
 from .types import (
@@ -111,6 +112,8 @@ class Policy:
         except Exception as exc:
             self._handle_exception_call(ctx, exc, on_attempt_end)
             raise
+        finally:
+            settle_if_unsettled(ctx)
 
     def _call_without_retry(
         self,
@@ -258,19 +261,26 @@ class Policy:
         """Execute with retry and record result with breaker."""
         retry = self.retry
         assert retry is not None
-        outcome = retry.execute(
-            func,
-            on_metric=on_metric,
-            on_log=on_log,
-            operation=operation,
-            abort_if=abort_if,
-            sleep=sleep,
-            before_sleep=before_sleep,
-            sleeper=sleeper,
-            on_attempt_start=on_attempt_start,
-            on_attempt_end=on_attempt_end,
-            capture_timeline=capture_timeline,
-        )
+        try:
+            outcome = retry.execute(
+                func,
+                on_metric=on_metric,
+                on_log=on_log,
+                operation=operation,
+                abort_if=abort_if,
+                sleep=sleep,
+                before_sleep=before_sleep,
+                sleeper=sleeper,
+                on_attempt_start=on_attempt_start,
+                on_attempt_end=on_attempt_end,
+                capture_timeline=capture_timeline,
+            )
+        except RetryExhaustedError as exc:
+            record_failure(ctx, exc.last_class or ErrorClass.UNKNOWN)
+            raise
+        except BaseException:
+            record_cancel(ctx)
+            raise
 
         # Record with circuit breaker
         if ctx.breaker is not None:
@@ -332,6 +342,10 @@ class Policy:
                     )
                 )
             return build_exception_outcome_no_retry(ctx, exc, klass)
+
+        except BaseException:
+            record_cancel(ctx)
+            raise
 
         # Success
         record_success(ctx)
